@@ -37,3 +37,24 @@ func verifHarness_C05_sysInterleavedPartitions() {
 	r.assertC01()
 	vReach()
 }
+
+// C05 (S8): for every configuration, Validate()==nil with Idempotent set implies the settings
+// the idempotence protocol needs.
+func verifHarness_C05_validateIdempotent() {
+	conf := NewConfig()
+	conf.Producer.Idempotent = vChoose("idempotent", 2) == 1
+	conf.Net.MaxOpenRequests = vInt("maxOpenRequests")
+	conf.Producer.Retry.Max = vInt("retryMax")
+	conf.Producer.RequiredAcks = RequiredAcks(vInt16("acks"))
+	versions := []KafkaVersion{V0_8_2_0, V0_10_2_0, V0_11_0_0, V2_1_0_0}
+	conf.Version = versions[vChoose("version", len(versions))]
+	err := conf.Validate()
+	if err == nil && conf.Producer.Idempotent {
+		vAssert(conf.Net.MaxOpenRequests == 1, "one-request-in-flight")
+		vAssert(conf.Producer.Retry.Max >= 1, "retries-enabled")
+		vAssert(conf.Producer.RequiredAcks == WaitForAll, "acks-all")
+		vAssert(conf.Version.IsAtLeast(V0_11_0_0), "version-supports-idempotence")
+	}
+	vCover("accepted-idempotent", err == nil && conf.Producer.Idempotent)
+	vReach()
+}
